@@ -124,6 +124,7 @@ def _translate(f: FuncInfo, table=None, binds=None, extra_hooks=(), prog=None):
     for k, v in (binds or {}).items():
         vocab.bind(k, v)
     t = Translator(vocab)
+    t.module = f.module  # module-level constants (index tables such as `_UPPER = ((0, 0, 1), (1, 2, 2))`) resolve
     dr = Draws(vocab)
     for h in extra_hooks:
         t.hooks.append(h)
@@ -221,7 +222,7 @@ def run(prog: Program, L: Ledger) -> None:
 
     # ------------------------------------------------------------------ Translation
     tr_ci = prog.cls("Translation")
-    f = flat(prog, tr_ci.methods["calculate"], tr_ci)
+    f = flat(prog, tr_ci.methods["calculate"], tr_ci, public_methods=True, keep=("calculate", "integrate", "to_dict", "from_dict"))
     rets = [st for st in f.body() if isinstance(st, ast.Return)]
     if len(rets) != 1:
         raise AnalysisError("Translation.calculate: single return expected")
@@ -244,7 +245,7 @@ def run(prog: Program, L: Ledger) -> None:
 
     # ------------------------------------------------------------------ Rotation
     rot = prog.cls("Rotation")
-    f = flat(prog, rot.methods["calculate"], rot)
+    f = flat(prog, rot.methods["calculate"], rot, public_methods=True, keep=("calculate", "integrate", "to_dict", "from_dict"))
     inl = Inliner(f.node)
     er = [c for c in calls_in(f.node) if isinstance(c.func, ast.Attribute) and c.func.attr in ("euler_rotate", "rotate")]
     if not er and _rotation_scipy_idiom(prog, L, f, inl):
@@ -317,7 +318,7 @@ def _after_rotation(prog: Program, L: Ledger, s) -> None:
 
     # ------------------------------------------------------------------ TranslationRotation
     trr = prog.cls("TranslationRotation")
-    f = flat(prog, trr.methods["calculate"], trr)
+    f = flat(prog, trr.methods["calculate"], trr, public_methods=True, keep=("calculate", "integrate", "to_dict", "from_dict"))
     rets = [st for st in f.body() if isinstance(st, ast.Return)]
     okc = len(rets) == 1 and norm(Inliner(f.node).inline(rets[0].value)) in ("self.translation.calculate(context) + self.rotation.calculate(context)", "self.rotation.calculate(context) + self.translation.calculate(context)")
     L.check(okc, "G3", "TranslationRotation.calculate", f.where, "not the sum of its translation and rotation parts", "", norm(rets[0].value) if rets else "")
@@ -388,7 +389,7 @@ def _after_rotation(prog: Program, L: Ledger, s) -> None:
 
     # ------------------------------------------------------------------ composite
     co = prog.cls("CompositeOperation")
-    f = flat(prog, co.methods["calculate"], co)
+    f = flat(prog, co.methods["calculate"], co, public_methods=True, keep=("calculate", "integrate", "to_dict", "from_dict"))
     rets = [st for st in f.body() if isinstance(st, ast.Return)]
     okc = False
     rv = Inliner(f.node).inline(rets[0].value) if len(rets) == 1 else None
